@@ -156,19 +156,21 @@ def history_independence(prefix, frame):
     e1 = S.SObj("e_far", pose, CAR, 50.0 + real("e_far_offset", -3, 3), 0.0, conf=0.8)
     e2 = S.SObj("e_bus", pose, S.BUS, 30.0, 0.0, conf=0.7)  # not a target label: dropped by the manager's own filter
     names = {id(o.obj): o.name for o in (near, far, e0, e1, e2)}
-    other = S.SObj("g_other", pose, CAR, 20.0, 0.0, is_gt=True, unix_time=100000)
+    # the other frame is seen from another ego pose (the critical / pass-fail config objects are shared by all calls)
+    pose2 = S.Pose(frame, "yaw_neg" if frame == "map" else "id", tag="ego_other")
+    other = S.SObj("g_other", pose2, CAR, 20.0, 0.0, is_gt=True, unix_time=100000)
     names[id(other.obj)] = "g_other"
 
     def dataset():
         return [FrameGroundTruth(0, "0", [near.obj, far.obj], transforms=pose.transforms),
-                FrameGroundTruth(100000, "1", [other.obj], transforms=pose.transforms)]
+                FrameGroundTruth(100000, "1", [other.obj], transforms=pose2.transforms)]
 
     estimates = [e0.obj, e2.obj, e1.obj]
     # reference: the call on a fresh manager
     ref_mgr, cfg = _manager(dataset())
-    wide = _filters(cfg, 120.0)
+    ref = ref_mgr.add_frame_result(0, ref_mgr.ground_truth_frames[0], list(estimates), *_filters(cfg, 120.0))
+    wide = _filters(cfg, 120.0)   # these config objects are reused by every call on the second manager
     narrow = _filters(cfg, 10.0)
-    ref = ref_mgr.add_frame_result(0, ref_mgr.ground_truth_frames[0], list(estimates), *wide)
     ref_sum, ref_scores = _summary(ref, names), _scores(ref.metrics_score)
     # the same call after a prefix of other evaluations on one manager
     mgr, _ = _manager(dataset())
